@@ -612,7 +612,28 @@ def extract_converter_facts(repo: Path) -> dict:
         and "script" in fns
         and calls(fns["script"], lambda f: isinstance(f, ast.Name) and f.id == "script_check")
     )
-    return {"stateFields": state, "resetFields": sorted(resets & set(state)), "freshPerScript": bool(fresh)}
+    # constants by reference: `ir.tensor(<bare name>)` where the name is the user's object, not a snapshot of it
+    by_ref = []
+    for name in ("_emit_const", "_translate_attr"):
+        fn = meths.get(name)
+        if fn is None:
+            continue
+        for n in ast.walk(fn):
+            if (
+                isinstance(n, ast.Call)
+                and isinstance(n.func, ast.Attribute)
+                and n.func.attr == "tensor"
+                and n.args
+                and isinstance(n.args[0], ast.Name)
+                and n.args[0].id in ("pyvalue", "val", "value")
+            ):
+                by_ref.append(name)
+    return {
+        "stateFields": state,
+        "resetFields": sorted(resets & set(state)),
+        "freshPerScript": bool(fresh),
+        "constByRefSites": sorted(set(by_ref)),
+    }
 
 
 def row_ok(r: dict) -> bool:
@@ -678,7 +699,8 @@ def emit_lean(data: dict) -> str:
         "def converterFacts : ConverterFacts :=",
         "  { stateFields := " + llist(data["converter"]["stateFields"])
         + ", resetFields := " + llist(data["converter"]["resetFields"])
-        + f", freshPerScript := {str(data['converter']['freshPerScript']).lower()}" + " }",
+        + f", freshPerScript := {str(data['converter']['freshPerScript']).lower()}"
+        + ", constByRefSites := " + llist(data["converter"]["constByRefSites"]) + " }",
         "",
         "end OV.Gen.C14Stash",
         "",
